@@ -1,10 +1,441 @@
 package props
 
 import (
+	"encoding/binary"
 	"encoding/json"
+	"fmt"
+	"hash/crc32"
+	"math"
+	"os"
+	"path/filepath"
+	"sort"
+	"strings"
+	"sync"
+
+	"github.com/klauspost/compress/zstd"
 
 	"verif/harness/kernel"
 )
 
-func c10Recovery(rep *kernel.Report, budget *kernel.Budget) {}
-func c10ReplayRecovery(doc json.RawMessage) int            { return 2 }
+// C10 part R — crashfs over metrics WAL histories. The set A of datapoints "whose log append had completed" is computed
+// from the crash state itself by an independent reader of the documented frame format; after recovery every element
+// of A must be in the recovered block files, nothing that was never sent may appear, nothing twice, order preserved.
+
+type c10Step struct {
+	Op     string `json:"op"` // put | wait | block
+	Series int    `json:"series,omitempty"`
+}
+
+type c10History struct {
+	Name  string             `json:"name"`
+	Tun   map[string]float64 `json:"tun"`
+	Steps []c10Step          `json:"steps"`
+}
+
+func c10Histories(tier string) []c10History {
+	put := func(s int) c10Step { return c10Step{Op: "put", Series: s} }
+	wait := c10Step{Op: "wait"}
+	rep := func(n int, s int) []c10Step {
+		var o []c10Step
+		for i := 0; i < n; i++ {
+			o = append(o, put(s))
+		}
+		return o
+	}
+	cat := func(xs ...[]c10Step) []c10Step {
+		var o []c10Step
+		for _, x := range xs {
+			o = append(o, x...)
+		}
+		return o
+	}
+	small := map[string]float64{"walBlockFlushSize": 2}
+	tiny := map[string]float64{"walBlockFlushSize": 2, "maxWalFileSize": 1}
+	hs := []c10History{
+		{"R1 five puts, timer flush", small, cat(rep(5, 0), []c10Step{wait})},
+		{"R2 wal file per append", tiny, cat(rep(7, 0), []c10Step{wait})},
+		{"R3 block rotation in the middle", small, cat(rep(3, 0), []c10Step{wait, {Op: "block"}}, rep(3, 0), []c10Step{wait})},
+		{"R4 two series", small, cat([]c10Step{put(0), put(1), put(0), put(1), put(0)}, []c10Step{wait})},
+	}
+	if tier == "thorough" {
+		hs = append(hs, c10History{"R5 twelve wal files", tiny, cat(rep(25, 0), []c10Step{wait})})
+		hs = append(hs, c10History{"R6 rotation with several wal files", tiny, cat(rep(5, 0), []c10Step{wait, {Op: "block"}}, rep(5, 0), []c10Step{wait, {Op: "block"}})})
+	}
+	return hs
+}
+
+type dpKey struct {
+	Tsid uint64
+	TS   uint32
+	Bits uint64
+}
+
+var zdec, _ = zstd.NewReader(nil)
+
+// parseDPWal: independent reader of the documented datapoint WAL format; returns the datapoints of all frames that
+// are completely present (length, CRC and payload) from the start of the file.
+func parseDPWal(b []byte) []dpKey {
+	var out []dpKey
+	if len(b) < 1 {
+		return nil
+	}
+	off := 1
+	for off+8 <= len(b) {
+		l := int(binary.LittleEndian.Uint32(b[off:]))
+		if l < 4 || off+4+l > len(b) {
+			break
+		}
+		sum := binary.LittleEndian.Uint32(b[off+4:])
+		payload := b[off+8 : off+4+l]
+		if crc32.ChecksumIEEE(payload) != sum {
+			break
+		}
+		raw, err := zdec.DecodeAll(payload, nil)
+		if err != nil || len(raw) < 4 {
+			break
+		}
+		n := int(binary.LittleEndian.Uint32(raw))
+		if len(raw) < 4+n*20 {
+			break
+		}
+		for i := 0; i < n; i++ {
+			ts := binary.LittleEndian.Uint32(raw[4+4*i:])
+			bits := binary.LittleEndian.Uint64(raw[4+4*n+8*i:])
+			tsid := binary.LittleEndian.Uint64(raw[4+12*n+8*i:])
+			out = append(out, dpKey{tsid, ts, bits})
+		}
+		off += 4 + l
+	}
+	return out
+}
+
+type c10Crash struct {
+	History  c10History `json:"history"`
+	Cut      int        `json:"cut"`
+	LastOp   string     `json:"lastOp"`
+	Appended []dpKey    `json:"appendedDatapoints"` // A: datapoints of every WAL frame that was ever completely written
+	Sent     map[uint64]bool
+	Inside   bool
+	fs       *kernel.MemFS
+}
+
+func c10Record(h *c10History, rep *kernel.Report) (ops []*kernel.FsOp, sent []uint64, dir string, cleanup func(), err error) {
+	w, err := kernel.Spawn(kernel.SpawnOpts{KeepDir: true})
+	if err != nil {
+		return nil, nil, "", nil, err
+	}
+	dir = w.Dir
+	cleanup = func() { w.Close(); _ = os.RemoveAll(dir) }
+	logPath := filepath.Join(dir, "fs.log")
+	if err := w.Call("boot", map[string]interface{}{"dir": dir, "crashLog": logPath, "relPaths": true, "tun": h.Tun}, nil); err != nil {
+		return nil, nil, dir, cleanup, fmt.Errorf("boot of hooked child failed: %v\n%s", err, w.StderrTail())
+	}
+	n := 0
+	for _, st := range h.Steps {
+		switch st.Op {
+		case "put":
+			n++
+			v := float64(n) + 0.5
+			ts := MT0 + uint32(n)
+			js := fmt.Sprintf(`{"metric":"c10m","tags":{"s":"%d"},"timestamp":%d,"value":%v}`, st.Series, ts, v)
+			_ = w.Call("mark", map[string]interface{}{"text": fmt.Sprintf("PUT_BEGIN %d", n)}, nil)
+			var r map[string]interface{}
+			if err := w.Call("mputl", map[string]interface{}{"json": js, "org": 0}, &r); err != nil {
+				return nil, nil, dir, cleanup, err
+			}
+			_ = w.Call("mark", map[string]interface{}{"text": fmt.Sprintf("PUT_RET %d", n)}, nil)
+			sent = append(sent, math.Float64bits(v))
+		case "wait":
+			if err := w.Call("sleep", map[string]interface{}{"ms": 1300}, nil); err != nil {
+				return nil, nil, dir, cleanup, err
+			}
+		case "block":
+			_ = w.Call("mark", map[string]interface{}{"text": "ROTATE_BEGIN"}, nil)
+			if err := w.Call("mrotate", map[string]interface{}{"kind": "block"}, nil); err != nil {
+				return nil, nil, dir, cleanup, err
+			}
+			_ = w.Call("mark", map[string]interface{}{"text": "ROTATE_DONE"}, nil)
+		}
+		rep.Transition(1)
+	}
+	w.Kill()
+	ops, err = kernel.ReadFsLog(logPath)
+	return ops, sent, dir, cleanup, err
+}
+
+func isDPWal(p string) bool {
+	return strings.Contains(p, "/wal-ts/") && strings.HasSuffix(p, ".wal") && strings.Contains(filepath.Base(p), "blockID")
+}
+
+func c10Enumerate(h *c10History, ops []*kernel.FsOp, sent []uint64) ([]*c10Crash, error) {
+	fs := kernel.NewMemFS()
+	seen := map[string]bool{}
+	appended := map[dpKey]bool{}
+	var order []dpKey
+	var out []*c10Crash
+	sentSet := map[uint64]bool{}
+	for _, b := range sent {
+		sentSet[b] = true
+	}
+	inside := false
+	emit := func(cut int, last string) {
+		key := fs.StateHash(c07SkipState)
+		if seen[key] {
+			return
+		}
+		seen[key] = true
+		snap := kernel.NewMemFS()
+		for p, b := range fs.Files {
+			snap.Files[p] = b
+		}
+		for d := range fs.Dirs {
+			snap.Dirs[d] = true
+		}
+		out = append(out, &c10Crash{History: *h, Cut: cut, LastOp: last, Appended: append([]dpKey{}, order...), Sent: sentSet, Inside: inside, fs: snap})
+	}
+	emit(0, "start")
+	for i, op := range ops {
+		if op.Op == "mark" {
+			inside = strings.HasSuffix(op.P, "_BEGIN") || strings.HasPrefix(op.P, "PUT_BEGIN")
+			if strings.HasPrefix(op.P, "PUT_RET") || op.P == "ROTATE_DONE" {
+				inside = false
+			}
+			continue
+		}
+		if err := fs.Apply(op); err != nil {
+			return nil, fmt.Errorf("model fs cannot apply log op %d (%s %s): %v", i, op.Op, op.P, err)
+		}
+		if op.Op == "write" && isDPWal(op.P) {
+			inside = true // a write into a WAL file: the cut may lie inside a frame
+			for _, k := range parseDPWal(fs.Files[strings.TrimSuffix(op.P, "/")]) {
+				if !appended[k] {
+					appended[k] = true
+					order = append(order, k)
+				}
+			}
+		}
+		emit(i+1, op.Op+"@"+fileKind(op.P))
+	}
+	return out, nil
+}
+
+type dumpSer struct {
+	Tsid   uint64      `json:"tsid"`
+	Points [][2]uint64 `json:"points"`
+	Err    string      `json:"err"`
+}
+
+func c10Recover(c *c10Crash, rep *kernel.Report) (*Fail, error) {
+	dir := kernel.NewScratchDir("c10r")
+	defer os.RemoveAll(dir)
+	if err := c.fs.Materialize(filepath.Join(dir, "data")); err != nil {
+		return nil, err
+	}
+	fail := func(clause, what string) *Fail {
+		return &Fail{FP: "C10/recovery-" + clause + "/" + c.LastOp, What: fmt.Sprintf("history %q crash after %d fs operations (last: %s): %s", c.History.Name, c.Cut, c.LastOp, what)}
+	}
+	w, err := kernel.Spawn(kernel.SpawnOpts{Dir: dir, MemKB: 4 << 20})
+	if err != nil {
+		return nil, err
+	}
+	defer w.Close()
+	if err := w.Call("boot", map[string]interface{}{"dir": dir, "recoverBoot": true, "relPaths": true, "tun": c.History.Tun}, nil); err != nil {
+		if d, ok := err.(*kernel.Died); ok {
+			return fail("startup-died", d.Exit+" "+d.Frame+"\n"+trunc(d.Stderr, 2000)), nil
+		}
+		return fail("startup-failed", err.Error()), nil
+	}
+	rep.Eval(1)
+	var dump map[string][]dumpSer
+	if err := w.Call("mdumpfiles", nil, &dump); err != nil {
+		if d, ok := err.(*kernel.Died); ok {
+			return fail("dump-died", d.Exit+" "+d.Frame), nil
+		}
+		return nil, err
+	}
+	got := map[dpKey]int{}
+	perTsid := map[uint64][]uint32{}
+	for _, f := range sortedKeys(dump) {
+		for _, s := range dump[f] {
+			if s.Err != "" {
+				return fail("unreadable-block", fmt.Sprintf("block file %s series %d: %s", f, s.Tsid, s.Err)), nil
+			}
+			for _, p := range s.Points {
+				k := dpKey{s.Tsid, uint32(p[0]), p[1]}
+				got[k]++
+				perTsid[s.Tsid] = append(perTsid[s.Tsid], uint32(p[0]))
+				if !c.Sent[p[1]] {
+					return fail("invented-datapoint", fmt.Sprintf("block file %s holds (tsid %d, ts %d, value %v) which was never sent", f, s.Tsid, p[0], math.Float64frombits(p[1]))), nil
+				}
+			}
+		}
+	}
+	for k, n := range got {
+		if n > 1 {
+			return fail("duplicate-datapoint", fmt.Sprintf("datapoint (tsid %d, ts %d) is stored %d times after recovery", k.Tsid, k.TS, n)), nil
+		}
+	}
+	var missing []string
+	for _, k := range c.Appended {
+		if got[k] == 0 {
+			missing = append(missing, fmt.Sprintf("(ts +%d, %v)", k.TS-MT0, math.Float64frombits(k.Bits)))
+		}
+	}
+	if len(missing) > 0 {
+		return fail("appended-datapoint-lost", fmt.Sprintf("%d datapoints whose WAL frame had been written completely are not in any block file after restart: %v (recovered %d datapoints)", len(missing), missing, len(got))), nil
+	}
+	return nil, nil
+}
+
+func c10Recovery(rep *kernel.Report, budget *kernel.Budget) {
+	hs := c10Histories(rep.Tier)
+	rep.Bounds["wal_histories"] = len(hs)
+	jobs := make(chan *c10Crash, 1024)
+	var wg sync.WaitGroup
+	total := 0
+	for i := 0; i < kernel.NumWorkers(); i++ {
+		wg.Add(1)
+		go func() {
+			defer wg.Done()
+			for c := range jobs {
+				if budget.Exceeded() {
+					continue
+				}
+				f, err := c10Recover(c, rep)
+				if err != nil {
+					rep.HarnessError(err.Error())
+					continue
+				}
+				rep.Trace(1)
+				key := fmt.Sprintf("R|%s|%d", c.History.Name, c.Cut)
+				rep.State(key)
+				if c.Inside {
+					rep.Nontrivial(key)
+				}
+				if f == nil {
+					rep.Outcome("ok")
+					continue
+				}
+				rep.Outcome(f.FP)
+				if rep.SeenViolation(f.FP) {
+					continue
+				}
+				ok := true
+				for k := 0; k < 2; k++ {
+					f2, err := c10Recover(c, rep)
+					if err != nil || f2 == nil || f2.FP != f.FP {
+						ok = false
+					}
+				}
+				if !ok {
+					rep.Unreproduced(f.FP + ": " + trunc(f.What, 300))
+					continue
+				}
+				rep.Violation(f.FP, f.What, map[string]interface{}{"history": c.History, "cut": c.Cut, "lastOp": c.LastOp})
+			}
+		}()
+	}
+	for hi := range hs {
+		h := &hs[hi]
+		if budget.Exceeded() {
+			rep.Cap("time budget: WAL history not run: " + h.Name)
+			continue
+		}
+		ops, sent, dir, cleanup, err := c10Record(h, rep)
+		if err != nil {
+			if cleanup != nil {
+				cleanup()
+			}
+			rep.HarnessError("recording " + h.Name + ": " + err.Error())
+			continue
+		}
+		full := kernel.NewMemFS()
+		bad := false
+		for i, op := range ops {
+			if err := full.Apply(op); err != nil {
+				rep.HarnessError(fmt.Sprintf("history %s: log op %d: %v", h.Name, i, err))
+				bad = true
+				break
+			}
+		}
+		if !bad {
+			if diffs := full.Conform(filepath.Join(dir, "data"), nil); len(diffs) > 0 {
+				rep.HarnessError(fmt.Sprintf("history %s: model fs differs from the real directory: %v", h.Name, diffs[:minInt(len(diffs), 6)]))
+				bad = true
+			}
+		}
+		cleanup()
+		if bad {
+			continue
+		}
+		rep.Add("wal_fs_operations_logged", int64(len(ops)))
+		crashes, err := c10Enumerate(h, ops, sent)
+		if err != nil {
+			rep.HarnessError(err.Error())
+			continue
+		}
+		total += len(crashes)
+		if len(crashes) > 2 {
+			c := crashes[len(crashes)/2]
+			rep.Sample(map[string]interface{}{"history": c.History.Name, "cut": c.Cut, "lastOp": c.LastOp, "appended": len(c.Appended)})
+		}
+		for _, c := range crashes {
+			if len(c.Appended) > 0 {
+				rep.Add("crash_states_with_completed_wal_frames", 1)
+			}
+			jobs <- c
+		}
+	}
+	close(jobs)
+	wg.Wait()
+	rep.Set("crash_states", total)
+}
+
+func c10ReplayRecovery(doc json.RawMessage) int {
+	var d struct {
+		History c10History `json:"history"`
+		Cut     int        `json:"cut"`
+		LastOp  string     `json:"lastOp"`
+	}
+	if err := json.Unmarshal(doc, &d); err != nil {
+		fmt.Println("HARNESS-ERROR", err)
+		return 2
+	}
+	rep := kernel.NewReport("C10", "fault_enumeration")
+	ops, sent, _, cleanup, err := c10Record(&d.History, rep)
+	if cleanup != nil {
+		defer cleanup()
+	}
+	if err != nil {
+		fmt.Println("HARNESS-ERROR", err)
+		return 2
+	}
+	crashes, err := c10Enumerate(&d.History, ops, sent)
+	if err != nil {
+		fmt.Println("HARNESS-ERROR", err)
+		return 2
+	}
+	rc, tried := 0, 0
+	for _, c := range crashes {
+		if c.LastOp != d.LastOp {
+			continue
+		}
+		tried++
+		f, err := c10Recover(c, rep)
+		if err != nil {
+			fmt.Println("HARNESS-ERROR", err)
+			return 2
+		}
+		if f != nil {
+			fmt.Printf("replay (cut %d): %s\n  %s\n", c.Cut, f.FP, f.What)
+			rc = 1
+			break
+		}
+	}
+	if rc == 0 {
+		fmt.Printf("replay: property held on %d crash states with last operation %s\n", tried, d.LastOp)
+	}
+	return rc
+}
+
+var _ = sort.Strings
